@@ -6,6 +6,7 @@ CLAIM = ('The real EvalScript (script/interpreter.cpp) executed on a single conc
          '(concrete element lengths incl. the 4/5-byte number boundary, symbolic bytes, symbolic MINIMALDATA/DISCOURAGE_UPGRADABLE_NOPS flags) agrees with an independent '
          'reference semantics: success/failure, the exact ScriptError, and the complete resulting stack. Covers numeric unary/binary/ternary opcodes, stack manipulation '
          '(incl. PICK/ROLL with symbolic depth), EQUAL(VERIFY), SIZE, VERIFY, RETURN, NOPs, disabled and reserved opcodes.')
+CLAIM += (' Tapscript signature opcodes (harness tapsig): the real EvalScript under SigVersion::TAPSCRIPT executes OP_CHECKSIG / OP_CHECKSIGVERIFY / OP_CHECKSIGADD as BIP342 specifies - empty key fails, a non-empty signature costs exactly 50 units of the validation-weight budget and the script fails iff the budget drops BELOW zero, the Schnorr verifier (recorder) is consulted exactly for non-empty signature x 32-byte key, unknown key types succeed unless discouraged, CHECKSIGADD pushes n + success - for a symbolic remaining budget, all bytes and flags. The initial budget (witness size + 50) set in VerifyWitnessProgram is not decided.')
 # opcode values are read from the current source
 OPS = {m.group(1): int(m.group(2), 16) for m in re.finditer(r'^\s*(OP_[A-Z0-9_]+)\s*=\s*(0x[0-9a-fA-F]+)\s*,', open(os.path.join(SRC, 'script/script.h')).read(), re.M)}
 def v(op, lens, ok=True, fail=False, op2=None, sv=0):
@@ -71,11 +72,11 @@ HARNESSES = [
       stubs=['CScriptNum::serialize replaced (inside EvalScript only) by a single-allocation encoder; harness scriptnum_encode proves it byte-identical to the real serialize for every |value| < 2^47; a larger value reaching it traps', 'tinyformat -> empty strings', 'assertion_fail -> CBMC assertion', 'BaseSignatureChecker (default: every check fails; not reached by these opcodes)'],
       bounds='one opcode per query (%d quick / %d thorough shapes); <= 4 stack elements of 0..5 bytes (concrete lengths, symbolic bytes); flags MINIMALDATA, DISCOURAGE_UPGRADABLE_NOPS, MINIMALIF symbolic; SigVersion BASE' % (len(quick), len(thorough))),
     H('tapsig', 'tapsig.cpp', 'h_tapsig', link=['script/interpreter.cpp', 'script/script.cpp', 'script/script_error.cpp', 'primitives/transaction.cpp', 'uint256.cpp', 'hash.cpp', 'crypto/ripemd160.cpp', 'crypto/sha1.cpp', 'crypto/sha256.cpp'],
-      entries=[('o%x_s%d_p%d_n%d' % a, '0x%x, %d, %d, %d' % a) for a in ((0xac, 64, 32, 0), (0xac, 0, 32, 0), (0xac, 65, 0, 0), (0xac, 1, 33, 0), (0xad, 64, 32, 0), (0xad, 0, 32, 0), (0xad, 0, 1, 0), (0xba, 64, 32, 1), (0xba, 0, 32, 0), (0xba, 64, 31, 2), (0xba, 0, 0, 1), (0xba, 65, 32, 4))],
+      entries=[('o%x_s%d_p%d_n%d' % a, '0x%x, %d, %d, %d' % a) for a in ((0xac, 64, 32, 0), (0xac, 0, 32, 0), (0xac, 1, 33, 0), (0xad, 64, 32, 0), (0xad, 0, 1, 0), (0xba, 64, 32, 1), (0xba, 0, 0, 1), (0xba, 65, 31, 4))],
       tentries=[('o%x_s%d_p%d_n%d' % a, '0x%x, %d, %d, %d' % a) for a in [(o, s, p, n) for o in (0xac, 0xad, 0xba) for s in (0, 1, 64, 65) for p in (0, 1, 32, 33) for n in ((0,) if o != 0xba else (0, 1, 2, 4))]],
-      shadow=['nofmt'], unwind=70, memunwind=72, timeout=600, objbits=11,
+      shadow=['nofmt'], unwind=70, memunwind=72, timeout=900, objbits=11, replace={'_ZN10CScriptNum9serializeERKl': 'verif_repl_serialize'},
       functions=['EvalScript (OP_CHECKSIG/OP_CHECKSIGVERIFY/OP_CHECKSIGADD under SigVersion::TAPSCRIPT)', 'EvalChecksig', 'EvalChecksigTapscript (validation weight budget)', 'CScriptNum', 'CScript::GetOp'],
-      stubs=['BaseSignatureChecker::CheckSchnorrSignature (virtual) -> recorder with symbolic verdict', 'CPubKey/XOnlyPubKey verification nondeterministic (unreached)', 'tinyformat -> empty strings', 'assertion_fail -> CBMC assertion'],
+      stubs=['BaseSignatureChecker::CheckSchnorrSignature (virtual) -> recorder with symbolic verdict', 'CScriptNum::serialize replaced (inside EvalScript only) by the single-allocation encoder proved byte-identical by scriptnum_encode', 'CPubKey/XOnlyPubKey verification nondeterministic (unreached)', 'tinyformat -> empty strings', 'assertion_fail -> CBMC assertion'],
       assumptions=['remaining validation weight in [0, 4 000 050] when the opcode starts (it is witness size + 50 initially and the script fails as soon as it would become negative)'],
       bounds='one signature opcode per query; signature lengths 0,1,64,65; key lengths 0,1,31,32,33; accumulator 0-4 bytes; budget, all bytes, MINIMALDATA and DISCOURAGE_UPGRADABLE_PUBKEYTYPE symbolic. The initial budget (serialized witness size + 50, set in VerifyWitnessProgram) is not decided here'),
 ]
